@@ -80,3 +80,46 @@ Lemma ex_features :
   parse_features (str "stack,stack") = None /\ parse_features (str "Stack") = None /\
   parse_features (str " stack") = None /\ parse_features (str "stack,heap") = None.
 Proof. vm_compute. repeat split. Qed.
+
+(* ------------------------------------------------------------------ *)
+(** * The whole command line (main.rs since F32)
+
+    `-f` / `--features` may be written before the sub-command (clap: `global_features`) and after it (the sub-command's
+    own option); what is not written counts as the empty list.  A value the parser refuses ends the process (clap,
+    status 2); otherwise the two are combined with `Features::union`. *)
+Definition union (a b : bool) : bool := a || b.
+
+Definition one_position (v : option (list N)) : option bool :=
+  match v with None => Some false | Some s => parse_features s end.
+
+Definition command_line (pre post : option (list N)) : option bool :=
+  match one_position pre, one_position post with
+  | Some a, Some b => Some (union a b)
+  | _, _ => None
+  end.
+
+(** The extension is on exactly when both positions are acceptable and at least one of them names `stack`;
+    it is off exactly when both are acceptable and neither does. *)
+Theorem command_line_spec pre post :
+  (command_line pre post = Some true <->
+     exists a b, one_position pre = Some a /\ one_position post = Some b /\ (a = true \/ b = true)) /\
+  (command_line pre post = Some false <-> one_position pre = Some false /\ one_position post = Some false) /\
+  (command_line pre post = None <-> one_position pre = None \/ one_position post = None).
+Proof.
+  unfold command_line, union.
+  destruct (one_position pre) as [[|]|]; destruct (one_position post) as [[|]|]; cbn [orb].
+  all: split; [split|split; split].
+  all: try (intros H; discriminate H).
+  all: try (intros [H|H]; discriminate H).
+  all: try (intros [H1 H2]; first [discriminate H1|discriminate H2]).
+  all: try (intros _; first [reflexivity | left; reflexivity | right; reflexivity | split; reflexivity]).
+  all: try (intros _; eexists; eexists; split; [reflexivity|split; [reflexivity|first [left; reflexivity|right; reflexivity]]]).
+  all: try (intros (a & b & Ha & Hb & Hc); first [discriminate Ha | discriminate Hb | (injection Ha as <-; injection Hb as <-; destruct Hc as [Hc|Hc]; discriminate Hc)]).
+Qed.
+
+Lemma ex_command_line :
+  command_line (Some (str "stack")) (Some (str "stack")) = Some true /\
+  command_line (Some (str "stack")) None = Some true /\ command_line None (Some (str ",stack")) = Some true /\
+  command_line (Some (str "")) (Some (str "")) = Some false /\ command_line None None = Some false /\
+  command_line (Some (str "heap")) (Some (str "stack")) = None.
+Proof. vm_compute. repeat split. Qed.
